@@ -134,7 +134,7 @@ def seeded_patches() -> List[Tuple[str, str, List[str], List[str]]]:
     return out
 
 
-def benign_patches() -> List[Tuple[str, str, List[str]]]:
+def benign_patches() -> List[tuple]:
     d = os.path.join(HERE, 'benign')
     out = []
     if os.path.isdir(d):
@@ -142,9 +142,20 @@ def benign_patches() -> List[Tuple[str, str, List[str]]]:
             pp = os.path.join(d, bid, 'patch.diff')
             mp = os.path.join(d, bid, 'meta.json')
             if os.path.exists(pp):
-                exc = json.load(open(mp)).get('not_silent_for', []) if os.path.exists(mp) else []
-                out.append(('benign:' + bid, pp, exc))
+                m = json.load(open(mp)) if os.path.exists(mp) else {}
+                exc = list(m.get('not_silent_for', [])) + [p for p, v in m.get('checks_not_silent', {}).items() if v != 'silent']
+                out.append(('benign:' + bid, pp, exc, m.get('files_touched', []), m.get('refactors_around_property')))
     return out
+
+
+def anchor_files(pid: str) -> List[str]:
+    """source files named by the property's anchors (a behaviour-preserving change elsewhere cannot change this property's verdict)"""
+    fn = os.path.join(HERE, 'properties.jsonl')
+    for line in open(fn):
+        d = json.loads(line)
+        if d['id'] == pid:
+            return list(d.get('anchors', {}).get('files', []))
+    return []
 
 
 # --------------------------------------------------------------------------- computed benign variants
@@ -267,8 +278,10 @@ def run_for_property(pid: str, root: str, jobs: int, ctx) -> dict:
         if pid in fire:
             work.append((vid, 'patch', path, pid, root))
             expect[vid] = 'fire'
-    for vid, path, exc in benign_patches():
-        if pid not in exc:
+    anchors = set(anchor_files(pid))
+    for vid, path, exc, files, around in benign_patches():
+        relevant = around == pid or not files or bool(anchors & set(files))
+        if pid not in exc and relevant:
             work.append((vid, 'patch', path, pid, root))
             expect[vid] = 'silent'
     for kind in ('ast-roundtrip', 'rename-locals'):
